@@ -391,6 +391,9 @@ pub trait Vec1View<T>: TIter<T> {
         T: 'a,
     {
         let len = self.len();
+        // an empty input has nothing to write; otherwise every slot of `out` must be written,
+        // which a zero window cannot do
+        assert!(window > 0 || len == 0, "window must be greater than 0");
         let window = window.min(len);
         if window == 0 {
             return;
@@ -562,6 +565,9 @@ pub trait Vec1View<T>: TIter<T> {
         F: FnMut(Option<T>, T) -> OT,
     {
         let len = self.len();
+        // an empty input has nothing to write; otherwise every slot of `out` must be written,
+        // which a zero window cannot do
+        assert!(window > 0 || len == 0, "window must be greater than 0");
         let window = window.min(len);
         if window == 0 {
             return;
@@ -681,6 +687,9 @@ pub trait Vec1View<T>: TIter<T> {
         F: FnMut(Option<(T, T2)>, (T, T2)) -> OT,
     {
         let len = self.len();
+        // an empty input has nothing to write; otherwise every slot of `out` must be written,
+        // which a zero window cannot do
+        assert!(window > 0 || len == 0, "window must be greater than 0");
         let window = window.min(len);
         if window == 0 {
             return;
@@ -792,6 +801,9 @@ pub trait Vec1View<T>: TIter<T> {
         F: FnMut(Option<usize>, usize, T) -> OT,
     {
         let len = self.len();
+        // an empty input has nothing to write; otherwise every slot of `out` must be written,
+        // which a zero window cannot do
+        assert!(window > 0 || len == 0, "window must be greater than 0");
         let window = window.min(len);
         if window == 0 {
             return;
@@ -913,6 +925,9 @@ pub trait Vec1View<T>: TIter<T> {
         F: FnMut(Option<usize>, usize, (T, T2)) -> OT,
     {
         let len = self.len();
+        // an empty input has nothing to write; otherwise every slot of `out` must be written,
+        // which a zero window cannot do
+        assert!(window > 0 || len == 0, "window must be greater than 0");
         let window = window.min(len);
         if window == 0 {
             return;
